@@ -234,7 +234,7 @@ def run_property(prop, tier, seed, only_kernel=None, verbose=True):
             "obligations": n_obl, "discharged": n_dis,
             "checker_cmd": "goto-cc --function <harness> kernel.c && goto-instrument --dfcc <harness> --enforce-contract <f> [--replace-call-with-contract g] [--apply-loop-contracts] && cbmc <checks> (per job; exact commands in /verif/work/%s/<kernel>/<job>.log)" % prop,
             "trusted_base": trusted,
-            "backend": cbmc_version() + " SAT (MiniSat2) unless a job says otherwise",
+            "backend": cbmc_version() + " with --sat-solver cadical unless a job names another back end (z3 for 64-bit division/multiplication)",
             "solver_time_s": round(solver_s, 2),
             "functions_under_contract": funcs,
             "kernels": [m.ID for (m, kb, wd, cfile) in builds],
